@@ -110,8 +110,6 @@ class Representor(SchemaVisitor[str]):
         if schema.props.type is not Nil:
             r += "({})".format(schema.props.type.__accept__(self, indent=indent, **kwargs))
         elif schema.props.elements is not Nil:
-            if len(schema.props.elements) == 0:
-                return r + "([])"
             elems = []
             for element in schema.props.elements:
                 if is_ellipsis(element):
@@ -119,9 +117,12 @@ class Representor(SchemaVisitor[str]):
                 else:
                     elem = element.__accept__(self, indent=indent + self._indent, **kwargs)
                 elems.append(" " * (indent + self._indent) + elem)
-            r += "([\n"
-            r += ",\n".join(elems)
-            r += "\n" + " " * indent + "])"
+            if len(elems) == 0:
+                r += "([])"
+            else:
+                r += "([\n"
+                r += ",\n".join(elems)
+                r += "\n" + " " * indent + "])"
 
         if schema.props.len is not Nil:
             r += f".len({schema.props.len!r})"
